@@ -1,6 +1,7 @@
 (* C07 — MergeMergePatches composes.  Only the property theorems live here, each closed by a lemma
    of MergeFacts.v / ImplMergeFacts.v, with Print Assumptions beneath. *)
 From JP Require Import Bytes Json Text Strings Den ImplV5 ImplMerge Rfc7396 JsonFacts MergeFacts Abs ImplMergeFacts.
+From JP Require Import Scan OutputFacts.
 
 (* The composition law at the level of RFC 7396 values, for every document and every pair of
    compatible patches (no bound on size or nesting; "no duplicate member names" is the property's
@@ -22,6 +23,16 @@ Theorem C07_mergemerge_refines_mm : forall p1 p2 ms1 t2,
                                        aval n = mm (den (TObj ms1)) (den t2)).
 Proof. exact api_mergemerge_spec. Qed.
 Print Assumptions C07_mergemerge_refines_mm.
+
+(* the output BYTES of MergeMergePatches: one well-formed JSON text (read by the independent reader,
+   accepted by the scanner) whose value is exactly the combined patch mm P1 P2 of the law above *)
+Theorem C07_mergemerge_output_bytes : forall p1 p2 ms1 t2,
+  parse p1 = Some (TObj ms1) -> parse p2 = Some t2 -> tnodup (TObj ms1) = true -> tnodup t2 = true ->
+  compatible (den (TObj ms1)) (den t2) = true ->
+  exists out t', api_merge true p1 p2 = MOut out /\ parse out = Some t' /\
+                 den t' = mm (den (TObj ms1)) (den t2) /\ valid_gen out = true.
+Proof. exact api_mergemerge_output. Qed.
+Print Assumptions C07_mergemerge_output_bytes.
 
 (* deletions of both patches survive; a later value overrides an earlier one *)
 Theorem C07_combined_member : forall ms1 ms2 k,
